@@ -90,6 +90,32 @@ func init() {
 			Actions: map[string]int{"close(t.stopCh)": 1, "<-t.done": 2},
 			Rets:    map[string]int{"nil": 0},
 		},
+		// pkg/v3/stores/result_store.go: the one service of the plug-in whose Close leaves its request in a buffered
+		// channel for a Start that has not reached its loop yet (Model/Lifecycle.v, kind KSticky)
+		{
+			Name: "rs_start", Props: []string{"C18"},
+			File: "pkg/v3/stores/result_store.go", Func: "resultStore.Start",
+			Binders: map[string]map[string]string{"ctx, cancel := context.WithCancel(pctx)": {}, "ticker := time.NewTicker(gcInterval)": {}},
+			Actions: map[string]int{
+				"ctx, cancel := context.WithCancel(pctx)": 1, "defer cancel()": 2, "ticker := time.NewTicker(gcInterval)": 3,
+				"defer ticker.Stop()": 4, "for { }": 5,
+			},
+			Ignore: []string{`^s\.lggr\.`},
+		},
+		{
+			Name: "rs_loop_body", Props: []string{"C18"},
+			File: "pkg/v3/stores/result_store.go", Func: "resultStore.Start", Loop: 1,
+			Atoms: []atom{{"<-ticker.C", "tick", "bool"}, {"<-ctx.Done()", "ctx_done", "bool"}, {"<-s.close", "close_req", "bool"}},
+			Actions: map[string]int{"s.gc()": 1, "s.closedCh <- struct{}{}": 2},
+			Rets:    map[string]int{"nil": 0},
+			Ignore:  []string{`^s\.lggr\.`},
+		},
+		{
+			Name: "rs_close", Props: []string{"C18"},
+			File: "pkg/v3/stores/result_store.go", Func: "resultStore.Close",
+			Actions: map[string]int{"s.close <- true": 1},
+			Rets:    map[string]int{"nil": 0},
+		},
 		{
 			Name: "plugin_close", Props: []string{"C18"},
 			File: "pkg/v3/plugin/ocr3.go", Func: "ocr3Plugin.Close",
